@@ -45,7 +45,10 @@ Definition bits_idx (n : nat) (s : N) : list nat := bits_from 0 n s.
 
 (** ** front-ends used by the C18 check (harness/props/c18.py)
 
-    All numbers of a case are passed as binary64 literals (parsed natively by coqc). *)
+    All numbers of a case are passed as binary64 literals (parsed natively by coqc), and
+    every number returned is a binary64 or a boolean: printing [Z]/[N]/[nat] numerals goes
+    through Coq-level decimal conversion and is ~40x slower. *)
+From Coq Require Import Uint63.
 From D3 Require Import Model.SimplexOrig Checker.KktZ.
 
 Fixpoint fpts (l : list float) : list (V3 float) :=
@@ -54,25 +57,47 @@ Fixpoint fpts (l : list float) : list (V3 float) :=
   | _ => []
   end.
 
-(** Jolt solver with the branch trace: (status, [vx; vy; vz; v_len_sq], bit set, trace) *)
-Definition jolt_ft (Yf : list float) : Z * list float * N * list N :=
+(** small non-negative integers as floats (exact below 2^53) *)
+Definition zf (z : Z) : float := PrimFloat.of_uint63 (Uint63.of_Z z).
+Definition nf (n : N) : float := zf (Z.of_N n).
+Definition natf (n : nat) : float := zf (Z.of_nat n).
+(** a checksum: the integer modulo 2^50 *)
+Definition chk (z : Z) : float := zf (Z.modulo z 1125899906842624).
+
+(** Jolt solver with the branch trace:
+    ([status+1; vx; vy; vz; v_len_sq; bit set], trace)   status+1: 2 ok | 1 fail | 0 error *)
+Definition jolt_ft (Yf : list float) : list float * list float :=
   let Y := fpts Yf in
   match @get_closest_point_to_origin_t float FOps Y (length Y) infinity with
-  | (GcpOk v l s, tr) => (1%Z, [vx v; vy v; vz v; l], s, tr)
-  | (GcpFail, tr) => (0%Z, [], 0%N, tr)
-  | (GcpErr, tr) => ((-1)%Z, [], 0%N, tr)
+  | (GcpOk v l s, tr) => ([2; vx v; vy v; vz v; l; nf s]%float, map nf tr)
+  | (GcpFail, tr) => ([1%float], map nf tr)
+  | (GcpErr, tr) => ([0%float], map nf tr)
   end.
 
 (** original solver's backup procedure:
-    (status, [vx; vy; vz; distance_squared], barycentric_coordinates[:n], ordered indices, trace) *)
-Definition orig_ft (Yf : list float) : Z * list float * list float * list nat * list N :=
+    ([status+1; vx; vy; vz; distance_squared], barycentric_coordinates[:n], ordered indices, trace) *)
+Definition orig_ft (Yf : list float) : list float * list float * list float * list float :=
   match @backup_procedure float FOps (fpts Yf) with
   | Some r => let s := b_sol r in
-              (1%Z, [vx (s_v s); vy (s_v s); vz (s_v s); s_d2 s], s_b s, b_ord r, b_trace r)
-  | None => ((-1)%Z, [], [], [], [])
+              ([2%float; vx (s_v s); vy (s_v s); vz (s_v s); s_d2 s], s_b s, map natf (b_ord r), map nf (b_trace r))
+  | None => ([0%float], [], [], [])
   end.
 
-(** exact-rational runs (lattice theorem, Proofs/SimplexLattice.v) *)
+(** the other arm of [get_closest_point_to_origin]: called again with [prev_v_len_sqr] = the
+    squared length it returned (must fail) -- status+1 followed by the trace *)
+Definition jolt_prev (Yf : list float) : list float :=
+  let Y := fpts Yf in
+  match @get_closest_point_to_origin float FOps Y (length Y) infinity with
+  | GcpOk _ l _ =>
+    match @get_closest_point_to_origin_t float FOps Y (length Y) l with
+    | (GcpOk _ _ _, tr) => 2%float :: map nf tr
+    | (GcpFail, tr) => 1%float :: map nf tr
+    | (GcpErr, tr) => 0%float :: map nf tr
+    end
+  | _ => [0%float]
+  end.
+
+(** exact-rational runs (lattice theorems, Proofs/SimplexLattice*.v) *)
 Definition orig_q (Y : list (V3 Q)) : option (V3 Q * list Q * list nat) :=
   match @backup_procedure Q QOpsSF Y with
   | Some r => Some (s_v (b_sol r), s_b (b_sol r), b_ord r)
@@ -82,41 +107,33 @@ Definition orig_q (Y : list (V3 Q)) : option (V3 Q * list Q * list nat) :=
 (** *** certificate front-ends: decode, then Checker/KktZ.v *)
 Local Open Scope Z_scope.
 Definition c18_units (N : Z) (Y : list (V3 Z)) : Z := zscale_of (2 ^ N) Y.
+Definition fnats (l : list float) : list nat :=
+  map (fun f => match f2z 0 f with Some z => Z.to_nat z | None => 99%nat end) l.
 
 (** [judge N Mw tb Yf pf sub wpf qs wqf]: the three verdicts of [c18_z] for the configuration
-    [Yf] and returned point [pf] (all scaled by [2^N]); witness weights are multi-float
-    expansions scaled by [2^Mw]; KKT slack [T = L^2 2^tb]; tolerance [L / 10^9] with
-    [L = max(2^N, max |coordinate|)], i.e. 1e-9 * max(1, max |coordinate|) in real units.
-    The fourth component is the sum of all decoded integers (a checksum the harness
-    recomputes, so that a decoding mismatch cannot go unnoticed). *)
-Definition judge (N Mw tb : Z) (Yf pf : list float) (sub : list nat) (wpf : list (list float))
-           (qs : list nat) (wqf : list (list float)) : list bool * Z :=
+    [Yf] and returned point [pf] (all scaled by [2^N]); index lists are given as floats;
+    witness weights are multi-float expansions scaled by [2^Mw]; KKT slack [T = L^2 2^tb];
+    tolerance [L / 10^9] with [L = max(2^N, max |coordinate|)], i.e.
+    1e-9 * max(1, max |coordinate|) in real units.
+    The last component is a checksum of all decoded integers, which the harness
+    recomputes, so that a decoding mismatch cannot go unnoticed. *)
+Definition judge (N Mw tb : Z) (Yf pf subf : list float) (wpf : list (list float))
+           (qsf : list float) (wqf : list (list float)) : list bool * float :=
   match f2pts N Yf, f2pts N pf, fsum2z_list Mw wpf, fsum2z_list Mw wqf with
   | Some Y, Some [p], Some Wp, Some Wq =>
     let L := c18_units N Y in
-    let '(a, b, c) := c18_z Y p sub Wp qs Wq (L * L * 2 ^ tb) L 1000000000 in
-    ([a; b; c], zsum (map (fun v => vx v + vy v + vz v) (p :: Y)) + zsum Wp + zsum Wq)
-  | _, _, _, _ => ([false; false; false], 0)
+    let '(a, b, c) := c18_z Y p (fnats subf) Wp (fnats qsf) Wq (L * L * 2 ^ tb) L 1000000000 in
+    ([a; b; c], chk (zsum (map (fun v => vx v + vy v + vz v) (p :: Y)) + zsum Wp + zsum Wq
+                     + zsum (map Z.of_nat (fnats subf ++ fnats qsf))))
+  | _, _, _, _ => ([false; false; false], 0%float)
   end.
 
 (** returned barycentric weights (binary64, scaled by [2^Mb]): >= 0, |sum - 1| <= 1e-9,
     reproduce [p] from [Y[sub]] in order within the tolerance *)
-Definition judge_bary (N Mb : Z) (Yf pf : list float) (sub : list nat) (bf : list float) : bool * Z :=
+Definition judge_bary (N Mb : Z) (Yf pf subf bf : list float) : bool * float :=
   match f2pts N Yf, f2pts N pf, f2z_list Mb bf with
   | Some Y, Some [p], Some Wb =>
     let L := c18_units N Y in
-    (bary_z Y p sub Wb (2 ^ Mb) 1 1000000000 L 1000000000, zsum Wb)
-  | _, _, _ => (false, 0)
-  end.
-
-(** the other arm of [get_closest_point_to_origin]: called again with [prev_v_len_sqr] = the
-    squared length it returned (must fail) -- status and trace *)
-Definition jolt_prev (Yf : list float) : Z * list N :=
-  let Y := fpts Yf in
-  match @get_closest_point_to_origin float FOps Y (length Y) infinity with
-  | GcpOk _ l _ =>
-    match @get_closest_point_to_origin_t float FOps Y (length Y) l with
-    | (GcpOk _ _ _, tr) => (1%Z, tr) | (GcpFail, tr) => (0%Z, tr) | (GcpErr, tr) => ((-1)%Z, tr)
-    end
-  | _ => ((-1)%Z, [])
+    (bary_z Y p (fnats subf) Wb (2 ^ Mb) 1 1000000000 L 1000000000, chk (zsum Wb))
+  | _, _, _ => (false, 0%float)
   end.
